@@ -79,6 +79,12 @@ class C13(TraceCheck):
 
     def run_history(self, hist):
         from curtsies.formatstring import fmtstr, linesplit
+        from curtsies.formatstring import FmtStr, Chunk
+        for r in SEED:
+            # other objects - the seeds' runs with styles as ints 0 / 1 instead of False / True - were rendered before
+            for t, a in r:
+                d = {k: (int(v) if isinstance(v, bool) else v) for k, v in enc.dec_atts(a).items()}
+                str(FmtStr(Chunk(enc.dec_text(t), d)))
         pool = [enc.build_fmtstr(r) for r in SEED]
         extras = []
         ev = []
@@ -90,6 +96,7 @@ class C13(TraceCheck):
             fa, fb = pool[a], pool[b]
             res = None
             side = []
+            interleaved = False
             rec["warmed"] = int((len(ev) + a) % 2 == 0)
             if rec["warmed"]:
                 # fill the operands' caches before the operation on every other step
@@ -139,7 +146,28 @@ class C13(TraceCheck):
                 elif op == "wslice":
                     side = [fa.width_aware_slice(slice(min(n, m), max(n, m)))]
                 elif op == "wsplit":
-                    side = list(fa.width_aware_splitlines(2 + n % 3))
+                    if m % 2:
+                        # the lazy line iterator of fa is advanced in turn with one over fb (which may share runs with
+                        # fa, or be fa): what it yields must be what an undisturbed split of the same runs yields
+                        it1, it2 = iter(fa.width_aware_splitlines(2 + n % 3)), iter(fb.width_aware_splitlines(2 + m % 3))
+                        d1 = d2 = False
+                        while not (d1 and d2):
+                            if not d1:
+                                try:
+                                    side.append(next(it1))
+                                except StopIteration:
+                                    d1 = True
+                            if not d2:
+                                try:
+                                    next(it2)
+                                except StopIteration:
+                                    d2 = True
+                        calm = list(FmtStr(*(Chunk(str(c.s), dict(c.atts)) for c in fa.chunks)).width_aware_splitlines(2 + n % 3))
+                        rec["robs"] = [views(x) for x in side] + [{"n": len(side)}]
+                        rec["rfresh"] = [views(x) for x in calm] + [{"n": len(calm)}]
+                        interleaved = True
+                    else:
+                        side = list(fa.width_aware_splitlines(2 + n % 3))
                 elif op == "upper":
                     side = [fa.upper()]
                 elif op == "strip":
@@ -155,6 +183,7 @@ class C13(TraceCheck):
                 elif op == "observe":
                     rec["obs"] = views(fa)
                     rec["fresh"] = fresh_views(fa)
+                    rec["toks"] = enc.lex(str(fa))
                 elif op == "mutate":
                     rec["raised"] = 0
                     rec["how"] = n
@@ -176,7 +205,13 @@ class C13(TraceCheck):
             except Exception as x:  # noqa
                 rec["exc"] = enc.exc_name(x)
             news = ([res] if res is not None else []) + list(side)
-            if op != "widthat":
+            for x in news:
+                # somewhere else in the process other objects with the same runs, styles given as ints 0 / 1, get rendered
+                for c in x.chunks:
+                    d = {k: (int(v) if isinstance(v, bool) else v) for k, v in c.atts.items()}
+                    if d != dict(c.atts) or any(isinstance(v, bool) for v in c.atts.values()):
+                        str(FmtStr(Chunk(str(c.s), d)))
+            if op != "widthat" and not interleaved:
                 rec["robs"] = [views(x) for x in news]
                 rec["rfresh"] = [fresh_views(x) for x in news]
             if res is not None:
